@@ -255,7 +255,7 @@ NamesT == Names \cup {"time"}
 First  == "a"
 Other(n) == IF n = "a" THEN "b" ELSE "a"
 
-ValueMenu(n) == {Num(5), Num(3), IAv("inc", <<Other(n)>>), IAv("two", <<>>)}
+ValueMenu(n) == {Num(5), Num(3), Num(0), IAv("inc", <<Other(n)>>), IAv("two", <<>>)}   \* 0 is a value like any other
 CallMenu(n) ==
     {Call("two", <<>>)} \cup {Call("inc", <<a>>) : a \in NamesT \ {n}}
     \cup {Call("mul", <<a, b>>) : a \in Names \ {n}, b \in NamesT \ {n}}
@@ -291,14 +291,14 @@ SingularOps(cc) ==
       \cup {[op |-> "remove_parameter", n |-> n]}
       \cup {[op |-> "update_parameter", n |-> n, v |-> v] : v \in ValueMenu(n)}
       \cup (IF Unjudgeable([op |-> "scale_parameter", n |-> n, f |-> 2], cc) THEN {}
-            ELSE {[op |-> "scale_parameter", n |-> n, f |-> 2]})
+            ELSE {[op |-> "scale_parameter", n |-> n, f |-> 2], [op |-> "scale_parameter", n |-> n, f |-> 0]})
       \cup {[op |-> "make_parameter_dynamic", n |-> n, iv |-> iv, st |-> st] :
-               iv \in {None, Num(4)},
+               iv \in {None, Num(4), Num(0)},
                st \in {Empty} \cup {(r :> 2) : r \in DOMAIN cc.rxn \cup M!SurFluxes(cc) \cup {"nosuch"}}}
       \cup {[op |-> "add_variable", n |-> n, v |-> v] : v \in ValueMenu(n)}
       \cup {[op |-> "remove_variable", n |-> n]}
       \cup {[op |-> "update_variable", n |-> n, v |-> v] : v \in ValueMenu(n)}
-      \cup {[op |-> "make_variable_static", n |-> n, iv |-> iv] : iv \in {None, Num(4)}}
+      \cup {[op |-> "make_variable_static", n |-> n, iv |-> iv] : iv \in {None, Num(4), Num(0)}}
       \cup {[op |-> "add_derived", n |-> n, call |-> cl] : cl \in CallMenu(n)}
       \cup {[op |-> "update_derived", n |-> n, call |-> cl, mode |-> "both"] : cl \in CallMenu(n)}
       \cup {[op |-> "update_derived", n |-> n, call |-> cl, mode |-> md] : cl \in PartialMenu(cc.der, n), md \in {"fn", "args"}}
